@@ -399,10 +399,6 @@ end mk
 
 /-! ## Part 3: `Arbiter.reap_processes` — the `waitpid(-1)` loop -/
 
-/-- the event a watcher named `wname` publishes (nothing once the PUB socket is closed) -/
-def evs (a : Arbiter) (wname topic : String) (pid : Option Nat) (x : String) : List Obs :=
-  if a.pubClosed then [] else [Obs.ev (resName wname) topic pid x]
-
 theorem evlog_evs (a : Arbiter) (log : List Obs) (w : Watcher) (t : String) (p : Option Nat) (x : String) :
     evlog a log w t p x = log ++ evs a w.name t p x := by
   unfold evlog evs
@@ -427,7 +423,7 @@ theorem forIn_pure_yield {γ β : Type} (l : List γ) (f : γ → β → β) (in
     simp only [bind, pure_run, List.foldl_cons]
     exact ih _
 
-theorem lookup_filter_ne (r : List (Nat × Nat)) (pid z : Nat) :
+theorem lookup_filter_fst_ne (r : List (Nat × Nat)) (pid z : Nat) :
     (r.filter (fun x => decide (x.1 ≠ pid))).lookup z = if z = pid then none else r.lookup z := by
   induction r with
   | nil => simp
@@ -459,7 +455,7 @@ theorem pidmap_lookup (u : Nat) (l : List Nat) : ∀ (init : List (Nat × Nat)) 
     rw [List.foldl_cons, ih]
     by_cases h1 : z ∈ rest
     · simp [h1]
-    · simp only [h1, if_false, List.lookup_cons, lookup_filter_ne, List.mem_cons, or_false]
+    · simp only [h1, if_false, List.lookup_cons, lookup_filter_fst_ne, List.mem_cons, or_false]
       by_cases h2 : z = pid
       · simp [h2]
       · have : (z == pid) = false := by simp [h2]
